@@ -45,12 +45,24 @@ func numericTypeConverterFunc[T int64 | uint64 | float64](value any) (any, error
 			return nil, fmt.Errorf("expected an int value, but found numeric value '%s'", bigFloat.String())
 		}
 
+		if _, accuracy := bigFloat.Int64(); accuracy != big.Exact {
+			return nil, fmt.Errorf("expected an int value, but found out of range numeric value '%s'", bigFloat.String())
+		}
+
 		numericValue, _ := bigFloat.Int64()
 		return numericValue, nil
 
 	case uint64:
 		if !bigFloat.IsInt() {
 			return nil, fmt.Errorf("expected a uint value, but found numeric value '%s'", bigFloat.String())
+		}
+
+		if bigFloat.Sign() > 0 {
+			unsignedValue, accuracy := bigFloat.Uint64()
+			if accuracy != big.Exact {
+				return nil, fmt.Errorf("expected a uint value, but found out of range numeric value '%s'", bigFloat.String())
+			}
+			return unsignedValue, nil
 		}
 
 		numericValue, _ := bigFloat.Int64()
